@@ -8,17 +8,27 @@ CFG_IP = "10.9.0.1"
 MAXN = 8
 
 
+def _machine(i):
+    # nodes 6 and 7 run on the machines of nodes 0 and 1 (same fqdn and ip), on ports of their own
+    return i - 6 if i >= 6 else i
+
+
 def fqdn(i):
     # cluster ids may contain hyphens
-    return "my-cluster.abc123.%04d.use1.cache.amazonaws.com" % (i + 1)
+    return "my-cluster.abc123.%04d.use1.cache.amazonaws.com" % (_machine(i) + 1)
 
 
 def ip(i):
-    return "10.9.1.%d" % (i + 1)
+    return "10.9.1.%d" % (_machine(i) + 1)
 
 
 def port(i):
+    if i >= 6:
+        return 11400 + i
     return 11211 if i % 3 else 11300 + i
+
+
+NODE_INDEX = {(fqdn(i), port(i)): i for i in range(MAXN)}
 
 
 class C19(Prop):
@@ -62,6 +72,8 @@ class C19(Prop):
             ck["use_pooling"] = True
         if rng.random() < 0.3:
             ck["key_prefix"] = E(b"p:")
+        if rng.random() < 0.25:
+            ck["ignore_exc"] = True        # says nothing about discovery: an ERROR endpoint must still be reported
         first = sorted(rng.sample(range(MAXN), rng.randint(1, 6)))
         version = rng.choice([1, 1, 7, 8, 9, 98, 99, 999])      # real endpoints bump it on every change
         err_first = rng.random() < 0.06
@@ -158,7 +170,7 @@ class C19(Prop):
                 cl = st["cluster"]
         if not isinstance(cl, dict):
             return None
-        return [int(n[0].split(".")[2]) - 1 for n in cl["nodes"]]      # "<cluster>.<id>.<nnnn>.use1..."
+        return [NODE_INDEX[(n[0], int(n[2]))] for n in cl["nodes"]]
 
     def judge(self, scn, res):
         out = []
